@@ -3,6 +3,7 @@
 usage: triage.py <profile> <mode> <n_runs> [--seed N] [--reject]"""
 import sys, json, collections
 sys.path.insert(0, "/verif")
+sys.path.insert(0, __import__("os").environ.get("VERIF_REPO", "/repo"))
 from sim import procs, driver, pretty, minimise
 from sim.choices import hash64
 
